@@ -199,7 +199,7 @@ class G:
     def s_typedecl2(self):
         """selector and entity shapes beyond s_typedecl"""
         r = self.r
-        ts = r.choice(["real(kind(1.0d0))", "integer(selected_int_kind(5))", "real(kind=kind(0.0))", "character(len=5, kind=1)",
+        ts = r.choice(["double complex", "real(kind(1.0d0))", "integer(selected_int_kind(5))", "real(kind=kind(0.0))", "character(len=5, kind=1)",
                        "character*(*)", "character*(10)", "character(*)", "complex(kind=8)", "complex*16", "logical*1",
                        "integer(kind=%s)" % self.env.const(), "real(%s)" % self.env.const(),
                        "character(len=%s)" % self.env.const(), "character(len=2*3)"])
@@ -248,7 +248,7 @@ class G:
 
     def s_attr_stmt(self):
         r = self.r
-        k = r.choice(["pointer", "target", "allocatable", "optional", "intent(in)", "intent(out)", "save /%s/" % self.env.const(),
+        k = r.choice(["pointer", "target", "allocatable", "optional", "intent(in)", "intent(out)", "volatile", "save /%s/" % self.env.const(),
                       "save %s, /%s/" % (self.env.scalar(), self.env.const())])
         if k.startswith("save"):
             self.S("save2", k)
